@@ -8,7 +8,7 @@ differential, the reference model R arbitrates disagreements (DESIGN 2.6).
 
 from mc import backends, compare, core, diff, explorer, inputs, menus
 from mc import hist as H
-from mc.hist import C, V, O, M, F
+from mc.hist import C, V, O, U, M, F
 
 PROP = "C01"
 
@@ -55,7 +55,11 @@ def chain_menu(cols, roles, depth, hist):
         {"op": "extend", "ops": {z: M("sum", C(A))}, "partition_by": pb},
         {"op": "extend", "ops": {z: F("_row_number")}, "partition_by": pb, "order_by": [A], "reverse": []},
         {"op": "extend", "ops": {A: O("+", C(A), V(1))}},
+        # an order-reversing re-definition of the column the ordered windows sort by
+        {"op": "extend", "ops": {A: U("-", C(A))}},
     ]
+    if len(N) > 1:
+        items.append({"op": "extend", "ops": {z: M("cumsum", C(N[1]))}, "partition_by": pb, "order_by": [A], "reverse": []})
     if made:
         last = made[-1]
         items.append({"op": "extend", "ops": {z: O("*", C(last), V(2))}})
